@@ -236,6 +236,7 @@ pub fn exec_fp(op: &Value) -> Value {
     let f = op["fn"].as_str().unwrap();
     match op["f"].as_str().unwrap() {
         "Fq" => field_common::<Fq>(f, op)
+            .or_else(|| if f == "ypair" { Some(ypair::<Fq>(op)) } else { None })
             .or_else(|| sqrt_common::<Fq>(f, op))
             .or_else(|| sgn_common::<Fq>(f, op))
             .or_else(|| fq_ops(f, op)),
@@ -256,15 +257,29 @@ pub fn exec_repr(op: &Value) -> Value {
     }
 }
 
+fn ypair<F: Field + Signum0 + Ord + J>(op: &Value) -> Value {
+    let a = F::from_j(&op["a"]);
+    let mut n = a;
+    n.negate();
+    json!({"neg": n.to_j(), "cmp": ord_j(a.cmp(&n)), "s": sgn_j(a.sgn0()), "sn": sgn_j(n.sgn0())})
+}
+
 fn fq2_ops(f: &str, op: &Value) -> Option<Value> {
     let a = || Fq2::from_j(&op["a"]);
     Some(match f {
+        "ypair" => ypair::<Fq2>(op),
         "mul_by_nonresidue" => {
             let mut x = a();
             x.mul_by_nonresidue();
             x.to_j()
         }
         "norm" => a().norm().to_j(),
+        // sqrt of a^2 (a square by construction); logs the squared input too
+        "sqrt_of_square" => {
+            let mut x = a();
+            x.square();
+            json!({"sq": x.to_j(), "root": opt_j(x.sqrt()), "leg": leg_j(x.legendre())})
+        }
         "cmp" => ord_j(a().cmp(&Fq2::from_j(&op["b"]))),
         _ => return None,
     })
